@@ -426,7 +426,8 @@ def run(db: DB, rep: Report) -> None:
         rep.check("M4", bool(calls_nm) and always and not late, db.loc(dump.node), dump.short,
                   "before-rollup:" + nm, "%s is called on every path of dump, before __build_time" % nm,
                   "Collector.dump can reach __build_time without having run %s first; the times it "
-                  "registers are missing from the roll-up" % nm)
+                  "registers are missing from the roll-up" % nm,
+                  decided=bool(calls_nm))
     bts = [n for n in walk_no_nested(dump.node) if is_bt(n)]
     ok = False
     if len(bts) == 1:
@@ -447,14 +448,29 @@ def run(db: DB, rep: Report) -> None:
     rep.check("M5", add_ok and len(binops) >= 2, db.loc(fn), bt.short, "rollup:accumulators",
               "accumulators in __build_time use OAdd (%d sites)" % len(binops),
               "an accumulation in __build_time uses an operator other than OAdd, or one of the two "
-              "accumulations (per component across Einsums, across blocks) is gone")
+              "accumulations (per component across Einsums, across blocks) is gone",
+              decided=bool(binops) and not add_ok)
     # per-component accumulation: dict[comp] = EBinOp(dict[comp], OAdd(), new_time)
     per_comp = [n for n in walk_no_nested(fn) if isinstance(n, ast.Assign) and
                 isinstance(n.targets[0], ast.Subscript) and _is_ctor(n.value, "EBinOp") and
                 norm(n.value.args[0]) == norm(n.targets[0])]
+    if not per_comp:
+        # the same accumulation through a local: v = EBinOp(D[k], OAdd(), v); D[k] = v
+        for n in walk_no_nested(fn):
+            if isinstance(n, ast.Assign) and isinstance(n.targets[0], ast.Subscript) and \
+                    isinstance(n.value, ast.Name):
+                for st, v in paths.defs_of(fn, n.value.id):
+                    if v is not None and _is_ctor(v, "EBinOp") and norm(v.args[0]) == norm(n.targets[0]) and \
+                            norm(v.args[1]) == "OAdd()":
+                        per_comp.append(n)
+    overwritten = [n for n in walk_no_nested(fn) if isinstance(n, ast.Assign) and
+                   isinstance(n.targets[0], ast.Subscript) and n not in per_comp]
     rep.check("M5", len(per_comp) == 1, db.loc(fn), bt.short, "rollup:per-component",
               "per-component time accumulates over the Einsums of a block",
-              "__build_time no longer accumulates a component's time over the Einsums of a block")
+              "__build_time no longer accumulates a component's time over the Einsums of a block",
+              decided=not per_comp and len({norm(n.targets[0]) for n in overwritten}) == 1 and
+              not any(_is_ctor(x, "EBinOp") for n in overwritten for x in ast.walk(n.value)) and
+              not any(isinstance(n.value, ast.Name) for n in overwritten))
     # max over exactly the per-component expressions
     maxes = [n for n in walk_no_nested(fn) if _is_ctor(n, "EFunc") and n.args and
              isinstance(n.args[0], ast.Constant)]
@@ -468,10 +484,14 @@ def run(db: DB, rep: Report) -> None:
         if ok:
             it = paths.resolve_flow(arg.generators[0].iter, maxes[0], fn, depth=1)
             ok = dict_name in norm(it)
+    bad_max = bool(maxes) and (maxes[0].args[0].value != "max" or len(maxes) != 1)
+    if maxes and not bad_max and not ok:
+        a_ = paths.resolve_flow(maxes[0].args[1], maxes[0], fn, depth=1)
+        bad_max = isinstance(a_, ast.ListComp) and bool(a_.generators[0].ifs)
     rep.check("M5", ok, db.loc(maxes[0]) if maxes else db.loc(fn), bt.short, "rollup:max",
               "block time is max(...) over exactly the per-component times",
               "the per-block combination in __build_time is not EFunc('max') over all per-component "
-              "times (found: %s)" % (norm(maxes[0]) if maxes else "no EFunc"))
+              "times (found: %s)" % (norm(maxes[0]) if maxes else "no EFunc"), decided=bad_max)
     # the value stored in metrics["time"] is the cross-block accumulator
     sites = time_sites(db, bt)
     ok = False
@@ -491,7 +511,7 @@ def run(db: DB, rep: Report) -> None:
             ok = in_loop and outside and _is_ctor(X, "EVar")
     rep.check("M5", ok, db.loc(fn), bt.short, "rollup:stored",
               "metrics['time'] is assigned the cross-block accumulator after the block loop",
-              "the value assigned to metrics['time'] is not the accumulator summed over all blocks")
+              "the value assigned to metrics['time'] is not the accumulator summed over all blocks", decided=False)
 
 
 def mutants(db: DB):
